@@ -824,11 +824,27 @@ def m_put_bytes(c, p, val, cnt):
     return unit()
 
 
+RESIZE_SPLIT = 40
+
+
 @model(r'^(?:bytes::)?BytesMut::(resize)$|^(?:std::vec::)?Vec::<u8>::(resize)$')
 def m_resize(c, p, newlen, val):
     ip = c.ip
     s = seq(ip, p)
-    k = concrete_int(ip, newlen, 'resize', 4096) if not newlen.concrete else newlen.v
+    if newlen.concrete:
+        k = newlen.v
+    else:
+        # a symbolic new length is split into the exact small values and one class "larger than RESIZE_SPLIT": the buffer then gets
+        # RESIZE_SPLIT + 1 elements (every later comparison against the few bytes actually available behaves as for any larger
+        # size; allocation failure for huge declared lengths is outside every claim)
+        k = None
+        for j in range(RESIZE_SPLIT + 1):
+            if ip.branch(newlen.v == z3.BitVecVal(j, newlen.w), 'concretise resize'):
+                k = j
+                break
+        if k is None:
+            k = RESIZE_SPLIT + 1
+            ip.env.setdefault('assumptions', set()).add('a symbolic resize above %d elements is modelled as %d elements' % (RESIZE_SPLIT, RESIZE_SPLIT + 1))
     if k > (1 << 20):
         raise Inconclusive("resize to %d bytes (beyond modelling bound)" % k)
     if k <= len(s.items):
